@@ -50,17 +50,17 @@ CHECK = {
         "vertex of a ring with > 3 vertices is closer than tolerance*(1-1e-9) to the line through its neighbours. "
         "distinct_nontrivial = distinct (parameters, input bit pattern) tuples with >= 10 decided points (offset), "
         "non-degenerate point sets (hull), >= 2 contours (decompose), a removed or a checked vertex (simplify)."),
-    "min_nontrivial": {"quick": 4000, "thorough": 50000},
+    "min_nontrivial": {"quick": 4000, "thorough": 16000},
     "exhaustive": {"quick": False, "thorough": False},
     "stages": [
         {"name": "offset", "variant": "asan", "harness": _H, "env": _ENV,
-         "cases": {"quick": 3000, "thorough": 40000}, "params": {"mode": "offset"}, "case_timeout": 600},
+         "cases": {"quick": 3000, "thorough": 12000}, "params": {"mode": "offset"}, "case_timeout": 600},
         {"name": "hull", "variant": "asan", "harness": _H, "env": _ENV,
-         "cases": {"quick": 3000, "thorough": 40000}, "params": {"mode": "hull"}, "case_timeout": 300},
+         "cases": {"quick": 3000, "thorough": 12000}, "params": {"mode": "hull"}, "case_timeout": 300},
         {"name": "decompose", "variant": "asan", "harness": _H, "env": _ENV,
-         "cases": {"quick": 2000, "thorough": 20000}, "params": {"mode": "decompose"}, "case_timeout": 300},
+         "cases": {"quick": 2000, "thorough": 8000}, "params": {"mode": "decompose"}, "case_timeout": 300},
         {"name": "simplify", "variant": "asan", "harness": _H, "env": _ENV,
-         "cases": {"quick": 3000, "thorough": 40000}, "params": {"mode": "simplify"}, "case_timeout": 300},
+         "cases": {"quick": 3000, "thorough": 12000}, "params": {"mode": "simplify"}, "case_timeout": 300},
     ],
     "assumptions": [
         "'regularized cross-sections' is read as eps-valid: inputs whose contours come closer than 64*eps to each other, "
